@@ -44,6 +44,9 @@ def Valid(t: "Type") -> "Bool":
         Valid(t) and isinstance(t, ParameterizedType),
         len(cast(t, "ParameterizedType").type_args) == len(cast(t, "ParameterizedType").t_constructor.type_parameters)
         and Valid(cast(t, "ParameterizedType").t_constructor)), triggers=[Valid(t)]))
+    # (TypeConstructor.__init__ asserts that a generic class has at least one type parameter)
+    axiom("param-args-nonempty", forall(lambda t: implies(
+        Valid(t) and isinstance(t, ParameterizedType), len(cast(t, "ParameterizedType").type_args) >= 1), triggers=[Valid(t)]))
     axiom("param-args-valid", forall(lambda t, i: implies(
         Valid(t) and isinstance(t, ParameterizedType) and 0 <= i and i < len(cast(t, "ParameterizedType").type_args),
         Valid(cast(t, "ParameterizedType").type_args[i])),
@@ -312,3 +315,26 @@ def _(self: "Type", other: "Type") -> "Bool":
 def _(self: "TypeParameter", other: "Type") -> "Bool":
     """not verified here (calls get_type_variables(None)); only its obvious consequence is assumed"""
     ensures("has-bound", implies(result, self.bound is not None))
+
+
+# ---------------------------------------------------------------- assignability of instantiations (Java primitive arrays)
+global_var("src.ir.java_types.Array", "TypeConstructor")
+
+
+@ghost
+def SameJavaArray(S: "Type", T: "Type") -> "Bool":
+    """both are instantiations of (a class equal to) the Java array class with == element types: `int[]` to `int[]`"""
+    define(isinstance(S, ParameterizedType) and isinstance(T, ParameterizedType)
+           and PyEq(cast(S, "ParameterizedType").t_constructor, java_types.Array)
+           and PyEq(cast(T, "ParameterizedType").t_constructor, java_types.Array)
+           and len(cast(S, "ParameterizedType").type_args) >= 1 and len(cast(T, "ParameterizedType").type_args) >= 1
+           and PyEq(cast(S, "ParameterizedType").type_args[0], cast(T, "ParameterizedType").type_args[0]))
+
+
+@contract("src.ir.types.ParameterizedType.is_assignable", pure=True)
+def _(self: "ParameterizedType", other: "Type") -> "Bool":
+    """a value of an instantiation may be assigned where its type is a subtype, or -- Java primitive arrays -- where both
+    are arrays with the same element type"""
+    requires("valid-self", Valid(self))
+    requires("valid-other", Valid(other))
+    ensures("sound", implies(result, Sub(self, other) or SameJavaArray(self, other)))
